@@ -1,0 +1,44 @@
+//go:build verif
+
+// Ghost lemma functions for the kvc verifier (see /verif/DESIGN.md). Compiled only with the
+// "verif" build tag.
+
+package cemi
+
+// verifFailed is set by replay tests; the verifier intercepts verifAssert/verifAssume by name.
+var verifFailed func()
+
+func verifAssert(b bool) {
+	if !b && verifFailed != nil {
+		verifFailed()
+	}
+}
+func verifAssume(bool) {}
+
+// C18: every non-zero address survives formatting and parsing.
+func lemmaC18_group(a GroupAddr) {
+	verifAssume(a != 0)
+	r, err := NewGroupAddrString(a.String())
+	verifAssert(err == nil)
+	verifAssert(r == a)
+}
+
+func lemmaC18_individual(a IndividualAddr) {
+	verifAssume(a != 0)
+	r, err := NewIndividualAddrString(a.String())
+	verifAssert(err == nil)
+	verifAssert(r == a)
+}
+
+// C18: the component constructors agree with the parser on in-range components, and ignore
+// the bits outside each component's width.
+func lemmaC18_ctor_group(a, b, c uint8, m uint16) {
+	verifAssert(NewGroupAddr3(a, b, c) == NewGroupAddr3(a&31, b&7, c))
+	verifAssert(NewGroupAddr2(a, m) == NewGroupAddr2(a&31, m&2047))
+	verifAssert(NewGroupAddr3(a, b, c) == NewGroupAddr2(a, uint16(b&7)<<8|uint16(c)))
+}
+
+func lemmaC18_ctor_individual(a, b, c uint8) {
+	verifAssert(NewIndividualAddr3(a, b, c) == NewIndividualAddr3(a&15, b&15, c))
+	verifAssert(NewIndividualAddr3(a, b, c) == NewIndividualAddr2(a<<4|b&15, c))
+}
